@@ -154,10 +154,10 @@ func (e *EventEmitter) handleSubscriber(ctx context.Context, sub event.Subscript
 			}
 
 			e := queue.Remove(queue.Front())
-			verifhook.Point("events.drain.dequeued", (<-chan Event)(cevent), e)
 
 			// Unlock cond mutex while sending the event
 			condProcess.L.Unlock()
+			verifhook.Point("events.drain.dequeued", (<-chan Event)(cevent), e)
 
 			select {
 			case <-ctx.Done():
